@@ -1104,6 +1104,10 @@ pub fn run(tier: &str, seed: u64, only: Option<&str>) -> Run {
     if only.is_none() || only.is_some_and(|o| o.starts_with("osk-")) {
         crate::c09osk::patterns(&mut run, &mut Rng::new(seed ^ 0x05c), thorough);
     }
+    // osu!standard end to end (PIPE osu lines, Model/PipelineOsu.lean)
+    if only.is_none() || only.is_some_and(|o| o.starts_with("pipe-osu-")) {
+        crate::pipe_osu::run(&mut run, tier, seed, only);
+    }
 
     // (case id, map text, native mode)
     let mut maps: Vec<(String, String, u8)> = Vec::new();
